@@ -1,31 +1,28 @@
 import Driver.Util
-import EncodingRs.Model.Label
+import Driver.Ops.Label
 /-!
 Model driver: reads operation lines `op args… => impl-result` on stdin,
 recomputes the right-hand side with the Lean model and prints
   `DIFF <line-no> <op line> :: model=<model-result>`
 for every disagreement, `BAD <line-no> …` for lines it cannot parse (never a
 silent default) and finally `STAT lines=<n> diffs=<d> bad=<b>`.
--/
-open EncodingRs
 
+Each `Driver/Ops/*.lean` module contributes a handler
+`String → List String → Option (Option String)` (see `Ops.label`).
+-/
 namespace Driver
 
-def encIdent (i : Nat) : String := match Gen.encodings[i]? with
-  | some e => e.ident
-  | none => "?"
-
-def showEnc : Option Nat → String
-  | none => "-"
-  | some i => encIdent i
+def handlers : List (String → List String → Option (Option String)) :=
+  [Ops.label]
 
 /-- model result for one operation, or `none` if the line is not understood -/
 def runOp (op : String) (args : List String) : Option String :=
-  match op, args with
-  | "label", [h] => do
-    let bs ← parseHex h
-    pure s!"{showEnc (Model.forLabel bs)} {showEnc (Model.forLabelNoReplacement bs)}"
-  | _, _ => none
+  let rec go : List (String → List String → Option (Option String)) → Option String
+    | [] => none
+    | h :: t => match h op args with
+      | some r => r
+      | none => go t
+  go handlers
 
 partial def loop (h : IO.FS.Stream) (n diffs bad : Nat) : IO (Nat × Nat × Nat) := do
   let line ← h.getLine
